@@ -351,3 +351,142 @@ def k6(prog):
                          "msg": "main() never checks that there is at least one combination of argument values: with a multi-valued --a that yields no value (`--a '1 (== 2)'`) the execution loop dereferences the end iterator of an empty list (crash instead of exit status 1)",
                          "detail": None})
     return inst, findings
+
+
+# ---------------------------------------------------------------------------
+# K7: `-a X` passes X as one string value, byte for byte (`-a X` equals `--a '"X"'`)
+
+def k7(prog):
+    """parse_arg_literal (and whatever file-local functions it uses) interpreted from source with the libzwerg C API modelled: the
+    argument list it returns must hold exactly one string value whose bytes are X, for X containing every character that is special
+    inside a Zwerg string literal (`"`, `\\`, `%` followed by a directive letter, `%(`), control and high bytes.  If the function builds
+    a query text instead of a value, the text is read with the documented string-literal rules: a `%s`/`%d`/`%x`/`%o`/`%b`/`%(` that
+    survives in it is a directive, not text."""
+    from cxxobj import CxxEvaluator, Obj, Vec, StdStr, Ptr, OutOfBounds, Sym
+    from absint import Thrown, Closure
+    inst, findings = [], []
+    fs = [f for f in prog.funcs.values() if f["n"] == "parse_arg_literal" and f.get("body") is not None]
+    if len(fs) != 1:
+        raise Broken("anchor parse_arg_literal vanished")
+    f = fs[0]
+
+    class Val:
+        def __init__(self, b, pos):
+            self.b, self.pos = b, pos
+            self.addr = id(self)
+
+    class Query:
+        def __init__(self, text):
+            self.text = text
+            self.addr = id(self)
+
+    def read_literal(text):
+        """values yielded by a query that is one double-quoted literal, per doc/syntax.rst; ('directive', what) when the literal
+        contains a formatting directive; None when the text is something else"""
+        if len(text) < 2 or text[:1] != b'"' or text[-1:] != b'"':
+            return None
+        out = bytearray()
+        i, body = 0, text[1:-1]
+        esc = {ord("n"): 10, ord("t"): 9, ord("\\"): 92, ord('"'): 34, ord("a"): 7, ord("b"): 8, ord("e"): 27, ord("f"): 12, ord("r"): 13, ord("v"): 11}
+        while i < len(body):
+            c = body[i]
+            if c == ord('"'):
+                return None
+            if c == ord("\\"):
+                if i + 1 >= len(body):
+                    return None
+                d = body[i + 1]
+                if d in esc:
+                    out.append(esc[d])
+                    i += 2
+                    continue
+                return None        # other escapes are not produced by any sensible quoting; unmodelled
+            if c == ord("%"):
+                d = body[i + 1:i + 2]
+                if d == b"%":
+                    out.append(ord("%"))
+                    i += 2
+                    continue
+                if d in (b"s", b"d", b"x", b"o", b"b", b"("):
+                    return ("directive", "%" + d.decode())
+                out.append(c)      # a lone % stands for itself
+                i += 1
+                continue
+            out.append(c)
+            i += 1
+        return bytes(out)
+
+    def parse_len(ev, o, a):
+        voc, ptr, ln = a[0], a[1], int(a[2])
+        cells = ptr.cells()
+        return Query(bytes(x & 0xff for x in cells[ptr.off:ptr.off + ln]))
+
+    def execute(ev, o, a):
+        q = a[0]
+        r = read_literal(q.text)
+        res = Obj("zw_result")
+        if r is None:
+            raise Broken("parse_arg_literal evaluates the query `%s`, which is not a plain string literal (unmodelled)" % q.text.decode("latin-1"))
+        if isinstance(r, tuple):
+            res.stacks = None
+            res.why = r[1]
+        else:
+            st = Obj("zw_stack")
+            st.vals = [Val(r, 0)]
+            res.stacks = [st]
+        return res
+
+    def result_next(ev, o, a):
+        r = a[0]
+        if r.stacks is None:
+            raise Thrown("the literal contains the directive %s: it formats the stack instead of standing for itself" % r.why)
+        return r.stacks.pop(0) if r.stacks else None
+
+    def init_str(ev, o, a):
+        ptr, ln, pos = a[0], int(a[1]), a[2]
+        cells = ptr.cells()
+        if ptr.off + ln > len(cells):
+            raise OutOfBounds("zw_value_init_str_len reads %d bytes from a buffer of %d" % (ln, len(cells) - ptr.off))
+        return Val(bytes(x & 0xff for x in cells[ptr.off:ptr.off + ln]), pos)
+    hooks = {
+        "zw_value_init_str_len": init_str,
+        "zw_value_init_str": lambda ev, o, a: Val(a[0].cstr().encode("latin-1"), a[1]),
+        "zw_query_parse_len": parse_len,
+        "zw_query_parse": lambda ev, o, a: Query(a[1].cstr().encode("latin-1")),
+        "zw_stack_init": lambda ev, o, a: Obj("zw_stack"),
+        "zw_query_execute": execute,
+        "zw_result_next": result_next,
+        "zw_stack_depth": lambda ev, o, a: len(a[0].vals),
+        "zw_stack_at": lambda ev, o, a: a[0].vals[len(a[0].vals) - 1 - int(a[1])],
+        "zw_value_pos": lambda ev, o, a: a[0].pos,
+        "zw_value_clone": lambda ev, o, a: Val(a[0].b, a[1]),
+        "ctor:zw_throw_on_error": lambda ev, o, a: Sym.of("throw_on_error"),
+        "zw_throw_on_error::operator zw_error **": lambda ev, o, a: Sym.of("errp"),
+        "ctor:std::function<*": lambda ev, o, a: a[0],
+    }
+    ev = CxxEvaluator(hooks, {}, prog=prog)
+    inputs = [b"abc", b"", b'a"b', b"a\\b", b"100%", b"a%%b", b"%s", b"50%d", b"%( 1 2 add %)", b"x%x", b"tab\there", b"line\nbreak", b"caf\xc3\xa9"]
+    voc = Sym.of("vocabulary")
+    key = "K7:parse_arg_literal"
+    bad = None
+    for x in inputs:
+        args = [StdStr(x)] if len(f["params"]) == 1 else [voc if "voc" in p_.get("t", "") else StdStr(x) for p_ in f["params"]]
+        shown = x.decode("latin-1").encode("unicode_escape").decode()
+        try:
+            r = ev.call(f, None, args)
+        except Thrown as t:
+            bad = bad or "`-a '%s'` is rejected or misread (%s)" % (shown, t)
+            continue
+        except OutOfBounds as t:
+            bad = bad or "`-a '%s'`: %s" % (shown, t)
+            continue
+        vals = r.items if isinstance(r, Vec) else None
+        if vals is None or len(vals) != 1 or not isinstance(vals[0], Val):
+            bad = bad or "`-a '%s'` yields %s values instead of one string" % (shown, len(vals) if vals is not None else "?")
+        elif vals[0].b != x:
+            bad = bad or "`-a '%s'` passes the string `%s`" % (shown, vals[0].b.decode("latin-1").encode("unicode_escape").decode())
+    inst.append((key, {"arguments_tried": len(inputs)}))
+    if bad:
+        findings.append({"key": key, "where": prog.rel(f["file"]) + ":" + f["l"].split(":")[-1],
+                         "msg": "%s: `-a X` must pass X itself as one string (it equals `--a '\"X\"'` only with every special character of X quoted)" % bad, "detail": None})
+    return inst, findings
